@@ -4,4 +4,4 @@ d=$(realpath $1); shift
 cd /verif
 git -C /repo apply $d/patch.diff || { echo "patch does not apply"; exit 3; }
 for p in "$@"; do ./check $p quick 2>&1 | grep -E "VIOLATION|KNOWN|UNDECIDED|^property=" | cut -c1-260; done
-git -C /repo checkout -- . 
+git -C /repo apply -R $d/patch.diff || echo "WARNING: could not revert patch"
